@@ -377,6 +377,10 @@ def configs(tier, rnd):
     add('select_send_recv', {'a': 0, 'b': 0}, [[(SEL, [(S, 'a', 0), (R, 'b')], False)], [(R, 'a')], [(S, 'b', 1)]])
     add('select_blocked_then_woken', {'a': 0, 'b': 0}, [[(SEL, [(R, 'a'), (R, 'b')], False), (SEL, [(R, 'a'), (R, 'b')], False)], [(S, 'a', 0)], [(S, 'b', 1)]])
     add('select_removed_from_other_queue', {'a': 0, 'b': 0}, [[(SEL, [(R, 'a'), (R, 'b')], False), (R, 'b')], [(S, 'a', 0), (S, 'b', 1)]])
+    # a blocked select with two cases on the SAME channel (same and mixed directions): when one fires the sibling entry must leave the queue too
+    add('select_same_channel_twice_recv', {'a': 0}, [[(SEL, [(R, 'a'), (R, 'a')], False), (R, 'a')], [(S, 'a', 0), (S, 'a', 1)]])
+    add('select_same_channel_twice_send', {'a': 0}, [[(SEL, [(S, 'a', 0), (S, 'a', 1)], False), (S, 'a', 2)], [(R, 'a'), (R, 'a')]])
+    add('select_same_channel_then_other_goroutine', {'a': 0}, [[(SEL, [(R, 'a'), (R, 'a')], False)], [(R, 'a')], [(S, 'a', 0), (S, 'a', 1)]])
     add('select_closed_recv', {'a': 0}, [[(C, 'a'), (SEL, [(R, 'a')], False), (SEL, [(R, 'a')], True)]])
     add('select_send_closed_panics', {'a': 1, 'b': 1}, [[(C, 'a'), (SEL, [(S, 'a', 0), (S, 'b', 1)], False)]])
     add('pipeline', {'a': 0, 'b': 1}, [[(R, 'b'), (R, 'b')], [(S, 'a', 0), (S, 'a', 1)], [(R, 'a'), (S, 'b', 2), (R, 'a'), (S, 'b', 3)]])
